@@ -43,6 +43,18 @@ Dial == /\ R.e = "dial"
         /\ inDial' = R.id /\ syncFail' = FALSE
         /\ UNCHANGED <<bterm, sterm, bclosed, sclosed, q, pend, estPeer, estDir, auth, denied, idErr>>
 
+(* a dial requested by behaviour b1 (ToSwarm::Dial): pend = "bdial" until the Swarm reports Dialing (then "out") or the
+   behaviours get the DialFailure of a dial that failed inside Swarm::dial (no SwarmEvent exists for that outcome) *)
+BehDial == /\ R.e = "behDial"
+           /\ handed' = handed \cup {R.id} /\ expect' = [expect EXCEPT ![R.id] = R.peer]
+           /\ pend' = [pend EXCEPT ![R.id] = "bdial"]
+           /\ UNCHANGED <<bterm, sterm, bclosed, sclosed, q, estPeer, estDir, auth, denied, inDial, syncFail, idErr>>
+
+SwDialing == /\ R.e = "swarmEvent" /\ R.kind = "dialing"
+             /\ G("C01", pend[R.id] = "bdial" /\ bterm[R.id] = "none")
+             /\ pend' = [pend EXCEPT ![R.id] = "out"]
+             /\ UNCHANGED <<bterm, sterm, bclosed, sclosed, q, estPeer, estDir, expect, auth, denied, handed, inDial, syncFail, idErr>>
+
 DialRet ==
   /\ R.e = "dialRet"
   /\ IF R.res = "ok"
@@ -65,12 +77,14 @@ Decision ==
 CbDialFailure ==
   /\ R.e = "cbDialFailure" /\ B1
   /\ G("C01", bterm[R.id] = "none")
+  /\ G("C06", denied[R.id] => bterm[R.id] = "none")                      \* a denied dial: exactly one failure
   /\ bterm' = [bterm EXCEPT ![R.id] = "outErr"]
   /\ pend' = [pend EXCEPT ![R.id] = "none"]
   /\ idErr' = IF R.kind \in {"WrongPeerId", "LocalPeerId"} THEN idErr \cup {R.id} ELSE idErr
-  /\ IF inDial = R.id THEN syncFail' = TRUE /\ G("C01", ~syncFail) /\ UNCHANGED q
-     ELSE q' = Append(q, <<"outErr", R.id, 0>>) /\ UNCHANGED syncFail
-  /\ UNCHANGED <<sterm, bclosed, sclosed, estPeer, estDir, expect, auth, denied, handed, inDial>>
+  /\ IF inDial = R.id THEN syncFail' = TRUE /\ G("C01", ~syncFail) /\ UNCHANGED <<q, sterm>>
+     ELSE IF pend[R.id] = "bdial" THEN sterm' = [sterm EXCEPT ![R.id] = "outErr"] /\ UNCHANGED <<q, syncFail>>
+     ELSE q' = Append(q, <<"outErr", R.id, 0>>) /\ UNCHANGED <<syncFail, sterm>>
+  /\ UNCHANGED <<bclosed, sclosed, estPeer, estDir, expect, auth, denied, handed, inDial>>
 
 CbListenFailure ==
   /\ R.e = "cbListenFailure" /\ B1
@@ -160,12 +174,12 @@ Skip ==
                  "cbNewExternalAddrCandidate", "cbExternalAddrConfirmed", "cbExternalAddrExpired", "cbNewExternalAddrOfPeer",
                  "cbAddressChange", "cbHandlerEvent", "hEvent", "hLocalProto", "hRemoteProto", "hAddressChange", "cbOther",
                  "emitQueued", "bEmit", "emitF", "hEmit", "hRequestOut", "hStream", "ranTask"}
-     \/ R.e = "swarmEvent" /\ R.kind \notin {"est", "outErr", "inErr", "closed", "incoming"}
+     \/ R.e = "swarmEvent" /\ R.kind \notin {"est", "outErr", "inErr", "closed", "incoming", "dialing"}
      \/ R.e \in {"cbDialFailure", "cbListenFailure", "cbConnEstablished", "cbConnClosed"} /\ ~B1
   /\ UNCHANGED <<bterm, sterm, bclosed, sclosed, q, pend, estPeer, estDir, expect, auth, denied, handed, inDial, syncFail, idErr>>
 
 Next == l <= NRec /\ l' = l + 1 /\
-        (Reset \/ Dial \/ DialRet \/ Decision \/ CbDialFailure \/ CbListenFailure \/ CbConnEstablished \/ CbConnClosed
+        (Reset \/ Dial \/ BehDial \/ SwDialing \/ DialRet \/ Decision \/ CbDialFailure \/ CbListenFailure \/ CbConnEstablished \/ CbConnClosed
          \/ SwLifecycle \/ SwIncoming \/ Env \/ Snap \/ End \/ Skip)
 Spec == Init /\ [][Next]_vars
 Progress == Mark(l)
